@@ -1,5 +1,83 @@
-"""End-to-end string conversion through generated wrappers (filled in with the atom machinery)."""
+"""C10 end to end: every string atom driven from Fortran through the generated wrappers with
+EVERY actual-argument text of length 0..N over {'a', blank} (and every declared length for
+output variables); c and c++, F_CFI off and on.  Oracle: the C01 reference model (trailing
+blanks trimmed on the way in, NUL terminated; truncated / blank padded on the way out)."""
+from __future__ import annotations
+
+import itertools
+import os
+
+from .. import atoms as A
+from .. import isolate
+
+
+def Over(atom, vals):
+    return atom.with_values(vals)
+
+
+def all_texts(n):
+    out = []
+    for k in range(n + 1):
+        out += ["".join(t) for t in itertools.product("a ", repeat=k)]
+    return out
+
+
+def funcs(maxlen):
+    texts = all_texts(maxlen)
+    nonempty = [t for t in texts if t]
+    fs = []
+    fs.append(A.Func("s_cstr_in", A.VoidRes(), [(Over(A.CStrIn(), texts), "s")]))
+    for form in ("cref", "val", "cptr"):
+        fs.append(A.Func("s_str_in_" + form, A.VoidRes(), [(Over(A.StrIn(form), texts), "s")]))
+    fs.append(A.Func("s_cstr_inout", A.VoidRes(), [(Over(A.CStrInout(), nonempty), "s")]))
+    fs.append(A.Func("s_cstr_out", A.VoidRes(), [(Over(A.CStrOut(), [5, 6, 7, 9, 16]), "s")]))
+    fs.append(A.Func("s_str_out", A.VoidRes(), [(Over(A.StrOut("out"), list(range(0, 9))), "s")]))
+    inout = [(t, ln) for t in texts for ln in range(max(1, len(t)), max(1, len(t)) + 4) if ln >= len(t)]
+    fs.append(A.Func("s_str_inout", A.VoidRes(), [(Over(A.StrOut("inout"), inout), "s")]))
+    fs.append(A.Func("s_str_inout_p", A.VoidRes(), [(Over(A.StrOut("inout", ptr=True), inout), "s")]))
+    for i, text in enumerate(["", "x", "hey you", "trail  "]):
+        fs.append(A.Func("s_res_cstr%d" % i, A.CStrRes(text), []))
+        fs.append(A.Func("s_res_str%d" % i, A.StrRes("val", text), []))
+        fs.append(A.Func("s_res_ref%d" % i, A.StrRes("cref", text), []))
+        for flen in (1, 4, 7, 12):
+            fs.append(A.Func("s_res_len%d_%d" % (i, flen), A.CStrRes(text, flen), []))
+    return fs
 
 
 def run_into(ctx):
-    return
+    from . import c01
+
+    quick = ctx.tier == "quick"
+    maxlen = 3 if quick else 4
+    fs = funcs(maxlen)
+    wd = ctx.subdir("e2e")
+    jobs = []
+    for lang in ("cxx", "c"):
+        for cfi in (0, 1):
+            jobs.append((os.path.join(wd, "j%d" % len(jobs)), "Sstr", fs, lang, cfi, 0, None, False))
+    res = isolate.pmap(c01.library_case, jobs, ctx.workers)
+    retry = []
+    for job, r in zip(jobs, res):
+        if r.get("retry"):
+            for f in job[2]:
+                if job[3] in f.langs():
+                    retry.append((os.path.join(wd, "r%d" % len(retry)), "Sstrx", [f], job[3], job[4], 0, None, False))
+    rres = isolate.pmap(c01.library_case, retry, ctx.workers) if retry else []
+    calls = 0
+    unbuilt = set()
+    for job, r in list(zip(jobs, res)) + list(zip(retry, rres)):
+        if r.get("retry") and len(job[2]) > 1:
+            continue
+        calls += r["calls"]
+        for kind, decl, msg in r["errs"]:
+            if decl is None and len(job[2]) == 1:
+                decl = job[2][0].decl()
+            if kind in ("generate", "build"):
+                unbuilt.add("%s [%s cfi=%d]" % (decl, job[3], job[4]))
+                continue
+            ctx.violation("e2e %s %s [%s cfi=%d]" % (kind, decl, job[3], job[4]), msg, {"kind": kind, "decl": decl})
+    ctx.count(states=calls, transitions=calls, validated=calls)
+    ctx.nontrivial_n(calls)
+    ctx.part("e2e", calls=calls, max_text_length=maxlen, functions=len(fs), configurations=4,
+             not_callable=sorted(unbuilt)[:10], not_callable_count=len(unbuilt))
+    ctx.sample({"e2e": "call s_str_inout(s) with character(len=5) s = 'a a'"})
